@@ -301,6 +301,13 @@ def end_to_end(ctx: Ctx, RULE: str = "R1.e"):
     except Raised as r:
         ctx.refuted(RULE, f"{GEN}::document", f"the checker's all-features document cannot be written/loaded: {r.exc.tname} {r.exc.args}")
         return
+    packets = kitchen_packets()
+    stream = b"".join(p[1] for p in packets)
+    _run_kitchen(ctx, RULE, fi, h, d, packets, stream)
+
+
+def kitchen_packets():
+    """(description, packet bytes, reference or None, bits) of the all-features stream."""
     le16 = lambda x: (x & 0xFFFF).to_bytes(2, "little")  # noqa: E731
     sci_a = bytes([2, 0x1F]) + le16(500) + struct.pack("<f", 1.0) + bytes.fromhex("40000001") + struct.pack(">e", 1.0) + bytes([1, 0])
     sci_b = bytes([0, 0x20]) + le16(-3) + struct.pack("<f", -0.5) + bytes.fromhex("a0000002") + struct.pack(">e", -2.0) + bytes([255, 7])
@@ -321,7 +328,10 @@ def end_to_end(ctx: Ctx, RULE: str = "R1.e"):
         ("SCI_HI: second-level child, context splines", ccsds_bytes(sci_hi, apid=100), lambda: header_items(100, len(sci_hi)) + ref_sci(sci_hi, True)[0], None),
         ("VERSION criterion false (APID 100, VERSION 1)", ccsds_bytes(sci_a, apid=100, version=1), None, None),
     ]
-    stream = b"".join(p[1] for p in packets)
+    return packets
+
+
+def _run_kitchen(ctx, RULE, fi, h, d, packets, stream):
     for report in (False, True):
         site0 = f"{GEN}::all-features stream::report_unrecognized={report}"
         try:
@@ -540,7 +550,8 @@ def end_to_end_second(ctx: Ctx, RULE: str = "R1.e2"):
                 else:
                     y = got[0] if len(got) == 1 else None
                     pd = y.kwargs.get("partial_data") if isinstance(y, ExcVal) else None
-                    ok = isinstance(y, ExcVal) and y.tname == "UnrecognizedPacketTypeError" and isinstance(pd, dict) and item_diff(pd, full) is None
+                    ok = isinstance(y, ExcVal) and y.tname == "UnrecognizedPacketTypeError" and isinstance(pd, dict) and item_diff(pd, full) is None \
+                        and getattr(pd, "cls", None) == "CCSDSPacket" and "raw_data" in getattr(pd, "attrs", {})
                     ctx.decide(ok, RULE, site, "reported with the values decoded so far",
                                f"{desc}: yielded {y!r}{' with partial data: ' + str(item_diff(pd, full)) if isinstance(pd, dict) else ''}; expected an "
                                f"unrecognized-packet report carrying the root container's items", where=where(fi, fi.node))
